@@ -165,8 +165,16 @@ func (p *polling) onDataRequest(ctx *types.HttpContext) {
 		packet = types.NewStringBuffer(nil)
 	}
 	if body := ctx.Request().Body; body != nil {
-		packet.ReadFrom(body)
+		// the declared length may be missing (chunked) or wrong: never buffer more than the limit
+		packet.ReadFrom(io.LimitReader(body, p.MaxHttpBufferSize()+1))
 		body.Close()
+	}
+	if int64(packet.Len()) > p.MaxHttpBufferSize() {
+		cleanup()
+
+		ctx.SetStatusCode(http.StatusRequestEntityTooLarge)
+		ctx.Write(nil)
+		return
 	}
 	p.Proto().OnData(packet)
 
